@@ -502,6 +502,8 @@ def po8(facts, rep, rule='PO-8'):
             elif eng_po.orphan_match(key, PO8_AUDIT, set(facts.bodies) | {'QGramIndex::' + b_.name for b_ in facts.body_list}):
                 k0 = eng_po.orphan_match(key, PO8_AUDIT, set(facts.bodies) | {'QGramIndex::' + b_.name for b_ in facts.body_list})
                 rep.audited(rule, k2, o['where'], 'arithmetic of the removed function %s, now written in its caller: %s' % (k0.split('|')[0], PO8_AUDIT[k0]))
+            elif eng_po.implied(key, PO8_AUDIT, o):
+                rep.audited(rule, k2, o['where'], eng_po.implied(key, PO8_AUDIT, o)[1])
             else:
                 rep.bad(rule, key, o['where'], 'undischarged %s obligation: %s' % (o['kind'], o['detail']))
     rep.floor(rule, 'obligations', total, 20)
